@@ -32,6 +32,12 @@ Sub-checks
   value of the same type - next double, fewer significant digits, one bit / digit of an integer, case / Unicode
   composition / trailing blank of a string; exhaustive also walks "size ladders": one play per nesting depth, item
   count, string length, and per precision / magnitude of a number)
+  Round 6: strings of several lines / words with every kind of line end (LF, CR, CR LF, VT, FF, FS, GS, RS, NEL,
+  U+2028, U+2029) and blank; "near" also swaps one line end / blank for another of its class, doubles it, adds /
+  removes one at either end; exhaustive holds every string of <= 3 characters over {a, the line-end characters,
+  blank, tab, NBSP}.  verify / playbook: reads of the revocation list that go wrong (OSError of ten errnos, EOFError,
+  ZipImportError, None, blank / non-YAML / wrongly shaped / cut-short content) before, between and after intact
+  reads: a play that has to be refused - in particular a revoked one - is still not accepted.
 """
 import base64
 import copy
@@ -83,7 +89,17 @@ RULE = ("plays = JSON trees of mappings (string / int / float / bool / null keys
         "characters and the pair differs. exhaustive also holds size ladders: depth 1-100 x 3 patterns, item counts and "
         "string lengths 0-39 and next to every power of two / ten up to 1100 items / 70 000 characters, floats of 1-17 "
         "significant digits x 18 magnitudes with their neighbours at +-1, +-2 ulps, integers +-(2**k - 1, 2**k, 2**k + 1) "
-        "for k <= 130 and 10**k +- 1 for k <= 40 as int, float and mapping key.")
+        "for k <= 130 and 10**k +- 1 for k <= 40 as int, float and mapping key. Line ends and blanks: generated strings "
+        "include texts of 1-3 words each followed by LF / CR / CR LF / VT / FF / FS / GS / RS / NEL / U+2028 / U+2029 / "
+        "blank / tab / NBSP (last one present or not); 'near' on a string also replaces one line end or blank by another "
+        "one, doubles it, or adds / removes one at either end; the exhaustive universe holds every string of <= 3 "
+        "(thorough 4) characters over {a, the ten line-end characters, blank, tab, NBSP} as value (<= 2: also as key and "
+        "list item). Faulty reads of the revocation list (verify: ~half of the cases, a schedule of intact and faulty "
+        "reads per play; playbook: ~10 % of the cases, the k-th read): pkgutil.get_data raises OSError (EACCES, EIO, "
+        "ENOENT, EMFILE, ENFILE, EISDIR, ESTALE, EPERM, ENOMEM, EINTR, or without errno), EOFError, ZipImportError, "
+        "returns None, b'', blank / comment-only / non-YAML / wrongly shaped text, or the intact list cut at 0-99.9 %; "
+        "oracle for those reads: a play that has to be refused (revoked, edited, wrongly signed, no digest) is not "
+        "accepted - the kind of failure and the fate of acceptable plays are not asserted.")
 ASSUMPTIONS = [
     "the digest is observed as hash_play(serialize_play(exclude_dynamic_elements(play))) - the exact "
     "composition verify_play hands to GPG (sub-checks presence/verify confirm that this value reaches "
@@ -105,6 +121,10 @@ ASSUMPTIONS = [
     "two floats are different values iff their repr differs (every double has its own shortest repr; -0.0 and 0.0 "
     "are different YAML scalars and are told apart by the unchanged code); two integers iff they differ, whatever "
     "their size; two strings iff their code points differ (no case folding, no Unicode normalisation, no trimming)",
+    "a read of the revocation list that goes wrong: 'not accepted' = verify() raises anything / the entry point ends "
+    "with a non-zero status or an escaping exception; after such a read the harness performs one throw-away load on the "
+    "module's YAML() instance (a ReaderError leaves it in a state in which the next load fails once - observed on the "
+    "unchanged tree, errs on the refusing side, not part of the statement)",
     "size: plays of up to ~105 container levels, ~5 000 items per container and ~300 000 characters per string are "
     "inside the domain (the unchanged loader, deepcopy and serialiser handle more than twice that depth; YAML texts "
     "the loader refuses are skipped); nothing is claimed beyond",
@@ -701,8 +721,13 @@ def _near_class(ca, cb):
         big = min(abs(int(x[1])), abs(int(y[1]))) >= 2 ** 53
         return "int/" + ("beyond-2**53" if big else "small")
     if x[0] == "s" and y[0] == "s":
+        def lines(t):       # every line end -> LF
+            return "\n".join(re.split(u"\r\n|[\n\r\x0b\x0c\x1c\x1d\x1e\x85\u2028\u2029]", t))
         return "str/" + ("case" if x[1].lower() == y[1].lower() else "composition" if
-                         unicodedata.normalize("NFC", x[1]) == unicodedata.normalize("NFC", y[1]) else "trailing")
+                         unicodedata.normalize("NFC", x[1]) == unicodedata.normalize("NFC", y[1]) else
+                         "line-end-kind" if lines(x[1]) == lines(y[1]) else
+                         "line-end-or-blank-at-the-end" if x[1].strip() == y[1].strip() else
+                         "blank-kind-or-run" if x[1].split() == y[1].split() else "trailing")
     return "other"
 
 
@@ -710,16 +735,28 @@ def _near_class(ca, cb):
 # generators
 # ---------------------------------------------------------------------------------------------
 
+# every character (sequence) at which str.splitlines() ends a line, and the blanks
+_LINE_BOUNDS = ["\n", "\r", "\r\n", "\x0b", "\x0c", "\x1c", "\x1d", "\x1e", u"\x85", u"\u2028", u"\u2029"]
+_BLANKS = [" ", "\t", u"\u00a0", u"\u3000", u"\u200b"]
+_WS_SET = frozenset("".join(_LINE_BOUNDS + _BLANKS))
+
 FRAGS = ["a", "b", "k", "x", "y", "1", "0", "True", "None", " ", "'", "'", '"', '"', "\\", "\\", "\n", "\t",
          u"\u200b", u"\u200c", u"\u200d", "\r", "\x00", "\x1b", "\x7f", u"\x85", u"\u2028", "\\n", "\\t", "\\'", '\\"',
          "\\\\", "\\u200b", "', '", "', '", "'), ('", "')])", "', ", "('", "ordereddict([", "ordereddict()", "[", "]",
          ", ", ",", "/", u"\xe9", u"\u4e2d", u"\U0001F600", ": ", "#", "- ", "{{ x }}",
-         u"\ud83d", u"\udc80"]      # lone surrogates: YAML escapes such as "\ud83d" load as such strings
+         u"\ud83d", u"\udc80",      # lone surrogates: YAML escapes such as "\ud83d" load as such strings
+         "\r\n", "\x0c", u"\u2029", "\n"]   # more of the characters str.splitlines() / a text-mode read treat as line ends
 
 _plain_text = st.text("abkxyz01_", min_size=1, max_size=4)
 _special_text = st.builds("".join, st.lists(st.sampled_from(FRAGS), min_size=0, max_size=5))
 _quoty_text = st.sampled_from(["a'", "it's", "'", "x'y", "''", "k'", "'b", 'a"', '"', 'say "x"', "b'\"", "a\\", "\\'"])
-_any_text = st.one_of(_plain_text, _special_text, _quoty_text, _special_text, st.text(max_size=3),
+# text of several lines / words (plays embed scripts and configuration files): 1-3 short words, each followed by a line
+# end or a blank of any kind (LF twice as likely as each other one), the last one present or not
+_lines_text = st.builds(lambda parts, tail: "".join(w + sep for w, sep in parts)[:None if tail else -1] if parts else "",
+                        st.lists(st.tuples(st.sampled_from(["a", "b", "Via: b", "x y", "", "k"]),
+                                           st.sampled_from(_LINE_BOUNDS + ["\n"] + _BLANKS[:3])), min_size=1, max_size=3),
+                        st.booleans())
+_any_text = st.one_of(_plain_text, _special_text, _quoty_text, _special_text, st.text(max_size=3), _lines_text,
                       st.sampled_from(["1", "1.0", "True", "true", "None", "null", "", "[]", "ordereddict()", "0o17"]))
 _style = st.sampled_from(["d", "d", "s", "p", "p", "l"])
 
@@ -974,9 +1011,30 @@ def _near(draw, n):
             u = unicodedata.normalize(form, t)
             if u != t:
                 opts.append(u)
-        opts.append(t + draw(st.sampled_from([" ", "\n", "\t", u"\u00a0", u"\u200b", "\x00"])))
-        if t[-1:] in (" ", "\n", "\t"):
-            opts.append(t[:-1])
+        # blanks and line ends: the same text with ANOTHER character of the class at one place (LF vs CR, CR LF, VT, FF,
+        # FS / GS / RS, NEL, U+2028, U+2029; blank vs tab / NBSP / ...), with a run of two instead of one, with one
+        # more / one less of them at either end - what splitlines(), universal-newline reads, strip() or
+        # " ".join(s.split()) identify
+        ws = [i for i, ch in enumerate(t) if ch in _WS_SET]
+        if ws:
+            i = _pick(draw, ws)
+            j = i + 1
+            if t[i] == "\r" and t[i + 1:i + 2] == "\n":
+                j = i + 2
+            elif t[i] == "\n" and i and t[i - 1] == "\r":
+                i, j = i - 1, i + 1
+            old = t[i:j]
+            pool = [x for x in ((_LINE_BOUNDS + _BLANKS) if old in _LINE_BOUNDS else (_BLANKS + _LINE_BOUNDS)) if x != old]
+            swapped = t[:i] + draw(st.sampled_from(pool)) + t[j:]
+            opts.extend([swapped, swapped, t[:i] + old + old + t[j:]])
+        end = draw(st.sampled_from(_LINE_BOUNDS + _BLANKS + ["\x00"]))
+        opts.append(t + end)
+        opts.append(end + t)
+        if t[-1:] in _WS_SET:
+            opts.append(t[:-2] if t[-2:] == "\r\n" and draw(st.booleans()) else t[:-1])
+        if t[:1] in _WS_SET:
+            opts.append(t[1:])
+        opts = [x for x in opts if x != t] or [t + " "]
         return {"s": _pick(draw, opts), "q": "d"}
     return None
 
@@ -1095,7 +1153,7 @@ def _apply_edit(draw, tree, kind, region_paths):
         # numbers first: that is where "close" has a meaning the other edits do not reach
         cand = ([s for s in slots if "f" in s[0][s[1]] and s[0][s[1]]["f"] != "nan"] * 3 +
                 [s for s in slots if "i" in s[0][s[1]]] * 2) or sslots
-        if cand and not (cand is sslots) and sslots and draw(st.integers(0, 5)) == 0:
+        if cand and not (cand is sslots) and sslots and draw(st.integers(0, 2)) == 0:
             cand = sslots
         if cand:
             s = _pick(draw, cand)
@@ -1403,6 +1461,17 @@ def _ladders(tier):
             yield {"m": [[S("k"), S("a" * (n - 1) + "b")]]}
         if 0 < n < 1100:
             yield {"m": [[S("a" * (n - 1) + "b"), S("v")]]}
+    # line ends and blanks: every string of <= 3 (thorough: 4) characters over {a, each character at which
+    # str.splitlines() ends a line, blank, tab, NBSP} as value, the short ones as key and as list item too - a rendering
+    # that goes line by line / word by word makes two of them collide
+    alphabet = ["a"] + [x for x in _LINE_BOUNDS if len(x) == 1] + [" ", "\t", u"\u00a0"]
+    for n in range(1, (3 if tier == "quick" else 4) + 1):
+        for combo in itertools.product(alphabet, repeat=n):
+            text = "".join(combo)
+            yield {"m": [[S("k"), S(text)]]}
+            if n <= 2:
+                yield {"m": [[S(text), S("v")]]}
+                yield {"m": [[S("k"), {"l": [S(text), S("a")]}]]}
     seen = set()
     for digits in range(1, 18):                        # floats: every number of significant digits x magnitude,
         for exp10 in (-320, -300, -20, -7, -5, -4, -1, 0, 1, 5, 11, 12, 15, 16, 17, 22, 23, 300):     # and the doubles next to it
@@ -1519,6 +1588,39 @@ def _toy_signature(digest):
     return base64.b64encode(b"TOYSIG:" + digest.hex().encode("ascii")).decode("ascii")
 
 
+# what can go wrong while the packaged revocation list is read (pkgutil.get_data -> loader.get_data: the file / the egg
+# member cannot be opened or read; a loader without resource support answers None; the file is there but blank, cut
+# short, or not the YAML list of one signed play)
+LIST_FAULT_ERRNOS = ["EACCES", "EIO", "ENOENT", "EMFILE", "ENFILE", "EISDIR", "ESTALE", "EPERM", "ENOMEM", "EINTR"]
+LIST_FAULT_TEXTS = ["", "\n", "# This file contains a list of revoked playbook signatures\n", "---\n", "--- ~\n", "...\n",
+                    "[]\n", "{}\n", "- name: [unclosed\n", "\x00\x01\x02PK\x03\x04", "revoked_playbooks: []\n",
+                    "- name: revocation list\n", "- name: revocation list\n  vars: {}\n  revoked_playbooks: []\n", "\t- x\n"]
+
+
+def _faulty_read(fault, good):
+    """the result of one faulty read of the revocation list whose intact content is `good` (returns or raises)"""
+    import errno
+    import os
+    import zipimport
+    kind = fault["kind"]
+    if kind == "oserror":
+        code = getattr(errno, fault["errno"])
+        raise OSError(code, os.strerror(code), "/var/lib/insights/last_stable.egg/insights/revoked_playbooks.yaml")
+    if kind == "oserror-plain":
+        raise IOError("can't read the resource")       # an OSError without errno (zipimport raises those)
+    if kind == "eof":
+        raise EOFError("EOF read where not expected")      # zipimport: egg member shorter than its directory entry says
+    if kind == "zipimport":
+        raise zipimport.ZipImportError("bad local file header")
+    if kind == "none":
+        return None
+    if kind == "text":
+        return fault["text"].encode("utf-8")
+    if kind == "cut":
+        return good[:len(good) * fault["permille"] // 1000]
+    raise HarnessError("unknown list fault %r" % (fault,))
+
+
 class _Stub(object):
     """replaces the module attributes gnupg and pkgutil of playbook_verifier for one case"""
 
@@ -1526,6 +1628,9 @@ class _Stub(object):
         self.calls = []
         self.revocation_yaml = revocation_yaml
         self.always_valid = always_valid
+        self.fault = None       # set to a fault description: the next reads of the revocation list go wrong that way
+        self.fault_at = {}      # number of the read (0, 1, ...) -> fault description
+        self.reads = 0
         stub = self
 
         class GPG(object):
@@ -1553,7 +1658,13 @@ class _Stub(object):
             def get_data(package, resource):
                 if (package, resource) != ("insights", "revoked_playbooks.yaml") or stub.revocation_yaml is None:
                     raise HarnessError("unexpected pkgutil.get_data(%r, %r)" % (package, resource))
-                return stub.revocation_yaml.encode("utf-8")
+                idx = stub.reads
+                stub.reads += 1
+                good = stub.revocation_yaml.encode("utf-8")
+                fault = stub.fault if stub.fault is not None else stub.fault_at.get(idx)
+                if fault is not None:
+                    return _faulty_read(fault, good)
+                return good
 
         self.pkgutil = FakePkgutil
 
@@ -1797,6 +1908,12 @@ def check_verify(case):
     list_yaml = _revocation_yaml(entries, _toy_signature(lo[1]))
     labels.append("revoked-entries=%d" % len(entries or []))
     nt = False
+    fault = case.get("list_fault")
+    schedule = list(case.get("schedule") or ["ok", "fault"]) if fault else ["ok"]
+    jfault = repr(fault)
+    labels.append("list-fault=" + ({"none": "read-returns-None"}.get(fault["kind"], fault["kind"]) if fault else "no"))
+    if fault:
+        labels.append("schedule=" + ">".join(schedule))
     for name, tree, _x in plays:
         q, _t = _materialise({"mode": mode, "a": tree}, "a")
         if q is None:
@@ -1817,19 +1934,53 @@ def check_verify(case):
             expect, why = "accept", "signed content unchanged and not revoked"
         if isinstance(q.get("vars"), dict) and q["vars"].get(SIG) != signature:
             raise HarnessError("signature not in place")
-        with _Stub(revocation_yaml=list_yaml) as stub:
-            try:
-                out = pv.verify(q)
-                got = "accept"
-            except pv.PlaybookVerificationError as e:
-                got = "refuse"
-                out = str(e)
-        if got != expect:
-            raise Violation("verify() must %s the %s play (%s) but did %s: %s" % (expect, name, why, got, str(out)[:200]),
-                            play=canon(q), revocation_list=list_yaml[-600:])
-        if got == "accept" and out is not q:
-            raise Violation("verify() did not return the verified play")
-        labels.append("%s:%s(%s)" % (name, got, why.split(":")[0][:40]))
+        # one verify() call per step; in a "fault" step the read of the revocation list goes wrong (see _faulty_read):
+        # the statement then still says that a play that has to be refused is not accepted - in particular one whose
+        # digest is on the list (HOW the call fails - which exception - is not stated and not asserted, neither is the
+        # fate of a play that would have been accepted).  The "ok" steps before / after it carry the full oracle.
+        for step in schedule:
+            with _Stub(revocation_yaml=list_yaml) as stub:
+                stub.fault = fault if step == "fault" else None
+                try:
+                    out = pv.verify(q)
+                    got = "accept"
+                except pv.PlaybookVerificationError as e:
+                    got = "refuse"
+                    out = str(e)
+                except (HarnessError, Violation):
+                    raise
+                except Exception as e:
+                    if step != "fault":
+                        raise
+                    got = "error"
+                    out = "%s: %s" % (type(e).__name__, e)
+                reads = stub.reads
+            if step == "fault":
+                # the module's one ruamel YAML() instance can be left dirty by a text it could not even read (observed
+                # on the unchanged tree: after a ReaderError - NUL bytes - the NEXT load of any text fails once with
+                # "Could not load ..."; that errs on the refusing side and is no part of the statement): use that one
+                # load up here, so that neither the "ok" steps nor the next case start from a dirty loader
+                try:
+                    pv.yaml.load(b"a: 1\n")
+                except Exception:
+                    labels.append("list-fault/loader-left-dirty")
+                if reads == 0:
+                    raise HarnessError("the revocation list was not read during verify()")
+                if expect == "refuse" and got == "accept":
+                    raise Violation("verify() accepted the %s play, which has to be refused (%s), when the read of the "
+                                    "revocation list went wrong (%s)" % (name, why, jfault), play=canon(q),
+                                    revocation_list=list_yaml[-600:], schedule=schedule)
+                labels.append("list-fault:%s-play-to-%s:%s" % (name, expect, got))
+                if expect == "refuse" and oq[0] == "ok" and oq[1] in revoked:
+                    nt = True
+                    labels.append("list-fault/revoked-play-not-accepted/" + fault["kind"])
+                continue
+            if got != expect:
+                raise Violation("verify() must %s the %s play (%s) but did %s: %s" % (expect, name, why, got, str(out)[:200]),
+                                play=canon(q), revocation_list=list_yaml[-600:], schedule=schedule)
+            if got == "accept" and out is not q:
+                raise Violation("verify() did not return the verified play")
+        labels.append("%s:%s(%s)" % (name, got if schedule[-1] == "ok" else expect, why.split(":")[0][:40]))
         if name == "edited" and oq[0] == "ok" and oq[2] != ca:
             nt = True
         if name == "original" and oq[0] == "ok" and oq[1] in revoked:
@@ -1850,9 +2001,22 @@ def _verify_case(draw):
                                       min_size=1, max_size=4),
                              st.sampled_from([None, [], ["self"], ["other", "self"], ["self", "other"],
                                               ["self", "other", "other"], ["other", "self", "other"]])))
-    return {"mode": mode, "a": tree, "b": b, "revoked": revoked,
+    case = {"mode": mode, "a": tree, "b": b, "revoked": revoked,
             "rev_names": draw(st.sampled_from(["unique", "unique", "same", "none", "pairs"])),
             "rev_hex": draw(st.sampled_from(["lower", "lower", "upper", "mixed", "spaced"]))}
+    if draw(st.integers(0, 9)) < 4:
+        case["list_fault"] = draw(_list_fault)
+        case["schedule"] = draw(st.sampled_from([["ok", "fault"], ["fault", "ok"], ["ok", "fault", "ok"],
+                                                 ["fault", "fault", "ok"]]))
+    return case
+
+
+_list_fault = st.one_of(
+    st.builds(lambda e: {"kind": "oserror", "errno": e}, st.sampled_from(LIST_FAULT_ERRNOS)),
+    st.sampled_from([{"kind": "none"}, {"kind": "text", "text": ""}, {"kind": "oserror-plain"}, {"kind": "eof"},
+                     {"kind": "zipimport"}]),
+    st.builds(lambda t: {"kind": "text", "text": t}, st.sampled_from(LIST_FAULT_TEXTS)),
+    st.builds(lambda p: {"kind": "cut", "permille": p}, st.one_of(st.integers(0, 999), st.sampled_from([0, 999, 500]))))
 
 
 def strat_verify(tier):
@@ -2251,9 +2415,38 @@ def check_playbook(case):
     if first_bad:
         labels.append("first-refused-play=%s" % ("first" if first_bad[0] == 0 else "later"))
         labels.append("why=" + expect[first_bad[0]][1].split(":")[0])
-    with _Stub(revocation_yaml=list_yaml):
+    # reads of the revocation list that go wrong (see _faulty_read): verify() reads the list once per play, so the
+    # k-th read belongs to the k-th play that is verified.  A playbook with a play that has to be refused is still not
+    # accepted, a play that has to be refused is still not accepted by its verify() call; what happens to plays /
+    # playbooks that would have been accepted is not stated and not asserted, neither is the kind of failure.
+    fault_at = dict((int(k) % len(docs), f) for k, f in (case.get("list_faults") or []))
+    if fault_at:
+        labels.append("list-faults=%d" % len(fault_at))
+        for k in sorted(fault_at):
+            labels.append("list-fault-at-play-to-%s" % expect[k][0])
+            if expect[k][1] == "digest is on the revocation list":
+                labels.append("list-fault/at-revoked-play/" + fault_at[k]["kind"])
+    with _Stub(revocation_yaml=list_yaml) as stub:
+        stub.fault_at = fault_at
         if case["entry"] == "main":
-            code, out, err = _run_entry_point(joint)
+            try:
+                code, out, err = _run_entry_point(joint)
+            except (HarnessError, Violation):
+                raise
+            except Exception as e:
+                if not fault_at:
+                    raise
+                # an exception that escapes the module = a traceback and exit status 1 of `python -m ...`
+                code, out, err = 1, "", "%s: %s" % (type(e).__name__, e)
+            finally:
+                if fault_at:
+                    try:                    # (a loader left dirty by an unreadable text: see check_verify)
+                        pv.yaml.load(b"a: 1\n")
+                    except Exception:
+                        pass
+            if fault_at and not first_bad and code != 0:
+                labels.append("refused-after-list-fault/not-asserted")
+                return {"nontrivial": False, "labels": labels}
             if first_bad and code == 0:
                 i = first_bad[0]
                 raise Violation("the entry point accepted (exit status 0) a playbook of %d plays although play %d must be "
@@ -2270,6 +2463,23 @@ def check_playbook(case):
                     got = "accept"
                 except pv.PlaybookVerificationError as e:
                     got = "refuse: %s" % e
+                except (HarnessError, Violation):
+                    raise
+                except Exception as e:
+                    if i not in fault_at:
+                        raise
+                    got = "error: %s: %s" % (type(e).__name__, e)
+                if i in fault_at:
+                    try:
+                        pv.yaml.load(b"a: 1\n")
+                    except Exception:
+                        pass
+                    if expect[i][0] == "refuse" and got == "accept":
+                        raise Violation("verify() call %d of a sequence over the plays of one playbook accepted the play, "
+                                        "which has to be refused (%s), when the read of the revocation list went wrong (%r)"
+                                        % (i, expect[i][1], fault_at[i]), playbook=joint, revocation_list=list_yaml[-600:],
+                                        kinds=[it["kind"] for it in case["plays"]])
+                    continue
                 if got.split(":")[0] != expect[i][0]:
                     raise Violation("verify() call %d of a sequence over the plays of one playbook must %s the play (%s) "
                                     "but did %s" % (i, expect[i][0], expect[i][1], got[:200]), playbook=joint,
@@ -2303,8 +2513,13 @@ def _playbook_case(draw):
         elif kind == "edited":
             b = _apply_edit(draw, tree, draw(st.sampled_from(EDITS[:-1])), None)
         plays.append({"a": tree, "b": b, "kind": kind})
-    return {"plays": plays, "entry": draw(st.sampled_from(["main", "main", "main", "main", "loop"])),
+    case = {"plays": plays, "entry": draw(st.sampled_from(["main", "main", "main", "main", "loop"])),
             "unrelated": draw(st.integers(0, 2)), "doc_start": draw(st.booleans())}
+    if draw(st.integers(0, 5)) == 1:
+        # some reads of the revocation list go wrong: mostly the one that belongs to the faulty play
+        where = st.sampled_from([fault_at, fault_at, fault_at] + list(range(n)))
+        case["list_faults"] = draw(st.lists(st.tuples(where, _list_fault).map(list), min_size=1, max_size=2))
+    return case
 
 
 def strat_playbook(tier):
